@@ -1168,7 +1168,10 @@ class C17(Suite):
         if k == "wf":
             return "wf:" + out
         if k == "seq":
-            return "seq:" + self.seq_shape(c) + ":" + "+".join(sorted({op[0] for op in c["ops"]} & {"iadd", "isub", "add", "sub", "utc", "loc", "copy"}))
+            kinds = {op[0] for op in c["ops"]}
+            groups = [g for g, ks in (("inplace", {"iadd", "isub"}), ("arith", {"add", "sub", "copy"}), ("setter", {"utc", "loc"}))
+                      if kinds & ks]
+            return "seq:" + self.seq_shape(c) + ":" + ("+".join(groups) or "observe-only")
         if k == "cmp":
             return "cmp:" + out.replace(" ", "")
         if k == "dur":
